@@ -472,11 +472,9 @@ theorem celtFrame_J (cfg : CeltSyms.CeltCfg) (len : Nat) (c : Dec) (hj : J c) (h
     have ha := afterAlloc_J cfg len h o { s with tr := [] } hl (by omega) he hs
     split at hf
     · exact absurd hf (by simp)
-    · split at hf
-      · exact absurd hf (by simp)
-      · injection hf with hf
-        rw [← hf]
-        exact ⟨ha, hs, hjd⟩
+    · injection hf with hf
+      rw [← hf]
+      exact ⟨ha, hs, hjd⟩
   | err e => rw [hd] at hf; exact absurd hf (by simp)
   | oob => rw [hd] at hf; exact absurd hf (by simp)
   | abort => rw [hd] at hf; exact absurd hf (by simp)
